@@ -30,6 +30,7 @@ def pset(n, path, x, dollar=True):
     """path: list of field names (str) and index expressions (dict)"""
     return {"s": "pset", "n": n, "x": x, "dollar": dollar,
             "path": [{"k": "f", "name": a, "x": lit(vnull())} if isinstance(a, str) else {"k": "i", "name": "", "x": a} for a in path]}
+def check_(x): return {"s": "check", "x": x}
 def expr(x): return {"s": "expr", "x": x}
 def ret(x, status=0): return {"s": "ret", "x": x, "status": status}
 def guard_(c, status, msg): return {"s": "guard", "c": c, "status": status, "msg": msg}
@@ -466,7 +467,7 @@ class Gen:
 
 def all_programs(tier, seed):
     rnd = random.Random(seed)
-    progs = operator_table() + precedence_table() + control_table() + optimizer_table() + match_table() + string_table() + status_table() + function_table() + special_numbers_table() + builtin_table() + module_table() + element_table() + equality_table()
+    progs = operator_table() + precedence_table() + control_table() + optimizer_table() + match_table() + string_table() + status_table() + function_table() + special_numbers_table() + builtin_table() + module_table() + element_table() + equality_table() + validation_table()
     g = Gen(rnd)
     for _ in range(600 if tier == "quick" else 8000):
         progs.append(g.program())
@@ -1124,6 +1125,32 @@ def equality_table():
     return out
 
 
+# ---- validation statements: ? f(args) ----------------------------------------------------------------------------------
+def validation_table():
+    out = []
+    I = lambda n: lit(vint(n))
+    S = lambda x: lit(vstr(x))
+    ok = func("ok", ["a"], [ret(bin_(">", var("a"), I(0)))])
+    nothing = func("nothing", ["a"], [decl("t", var("a"))])
+    P = lambda body, tags, vars_=(), funcs=(): out.append(prog("", body, vars_, ["validation"] + tags, list(funcs)))
+    P([check_(calln("contains", S("hello"), S("ell"))), ret(I(1))], ["holds"])
+    P([check_(calln("contains", S("hello"), S("zz"))), ret(I(1))], ["fails"])
+    P([check_(call("length", S("abc"))), ret(I(1))], ["answers-a-number"])
+    P([check_(calln("contains", I(5), S("zz"))), ret(I(1))], ["the-call-fails"])
+    P([check_(fcall("nosuch", I(1))), ret(I(1))], ["undefined-function"])
+    P([check_(calln("startsWith", var("q"), S("a"))), ret(var("q"))], ["input", "holds"], [("q", vstr("abc"))])
+    P([check_(calln("startsWith", var("q"), S("a"))), ret(var("q"))], ["input", "fails"], [("q", vstr("xbc"))])
+    P([if_(lit(vbool(True)), [check_(calln("startsWith", S("ab"), S("b")))]), ret(I(1))], ["in-a-block", "fails"])
+    P([decl("n", I(0)), for_(None, "v", arr([I(1), I(2), I(-3), I(4)]), [check_(bin_(">", var("v"), I(0))) if False else check_(calln("contains", S("124"), calln("toString", var("v")))), set_("n", bin_("+", var("n"), I(1)))]), ret(var("n"))], ["in-a-loop", "fails-at-the-third"])
+    P([check_(calln("contains", S("a"), S("a"))), check_(calln("contains", S("a"), S("b"))), ret(I(1))], ["second-fails"])
+    P([ret(I(1)), check_(calln("contains", S("a"), S("b")))], ["after-return", "never-reached"])
+    P([check_(fcall("ok", I(1))), ret(I(1))], ["declared-function", "holds"], funcs=(ok,))
+    P([check_(fcall("ok", I(-1))), ret(I(1))], ["declared-function", "fails"], funcs=(ok,))
+    P([check_(fcall("nothing", I(1))), ret(I(1))], ["declared-function", "answers-nothing"], funcs=(nothing,))
+    P([guard_(bin_(">", var("q"), I(0)), 422, "positive"), check_(calln("contains", S("a"), S("b"))), ret(I(1))], ["after-a-guard-that-holds"], [("q", vint(1))])
+    return out
+
+
 # ---- numbers the specification cannot compute with but can order: big integers, NaN -------------------------------
 def special_numbers_table():
     out = []
@@ -1142,4 +1169,9 @@ def special_numbers_table():
         P([ret(arr([bin_(op, var("x"), other) for op in ("<", "<=", ">", ">=", "==", "!=")] + [bin_(op, other, var("x")) for op in ("<", "<=", ">", ">=")]))], ["nan-ordering"], [("x", vnan())])
     P([if_(bin_("<", var("x"), lit(vfloat(1.0))), [ret(lit(vstr("less")))], [if_(bin_(">=", var("x"), lit(vfloat(1.0))), [ret(lit(vstr("not-less")))], [ret(lit(vstr("unordered")))])])], ["nan-branches"], [("x", vnan())])
     P([decl("y", bin_("+", var("x"), lit(vfloat(1.0)))), ret(arr([bin_("<", var("y"), lit(vfloat(0.0))), bin_("==", var("y"), var("y"))]))], ["nan-propagates"], [("x", vnan())])
+    # a result that has no JSON form (NaN): the evaluation has a value, the HTTP answer cannot be a success
+    P([ret(var("x"))], ["nan-returned"], [("x", vnan())])
+    P([ret(arr([lit(vint(1)), var("x")]))], ["nan-returned", "in-an-array"], [("x", vnan())])
+    P([ret(obj([("a", bin_("*", var("x"), lit(vfloat(0.5))))]))], ["nan-returned", "in-an-object"], [("x", vnan())])
+    P([ret(obj([("a", var("x"))]), 201)], ["nan-returned", "with-a-status"], [("x", vnan())])
     return out
